@@ -178,18 +178,7 @@ def check_block_layout(ctx, oid="C15.5"):
     got = ev.run(fh).value()
     R.check(oid, "LAYOUT", fh, "header = version(4 LE) || prev(32) || merkle(32) || time(4 LE) || bits(4) || nonce(4 LE)", tm.veq(got, want),
             "block_header: %s" % tm.first_diff(got, want))
-    fd = ctx.fn("bits.blockchain.block_header_deser")
-    s = ev.run(fd)
-    b = P(fd.params()[0], tm.BYTES)
-    rets = s.returns()
-    wantd = {"version": tm.b2i(tm.slc(b, None, 4), "little"), "prev_blockheaderhash": tm.hexs(tm.slc(b, 4, 36)), "merkle_root_hash": tm.hexs(tm.slc(b, 36, 68)),
-             "nTime": tm.b2i(tm.slc(b, 68, 72), "little"), "nBits": tm.hexs(tm.slc(b, 72, 76))}
-    okd = len(rets) == 1 and isinstance(rets[0].value, dict) and all(tm.veq(rets[0].value.get(k), v) for k, v in wantd.items()) and (
-        tm.veq(rets[0].value.get("nNonce"), tm.b2i(tm.slc(b, 76, None), "little")) or tm.veq(rets[0].value.get("nNonce"), tm.b2i(tm.slc(b, 76, 80), "little")))
-    R.check(oid, "TILE", fd, "header reader slices tile the 80 bytes in the writer's order, widths and endianness", okd,
-            "block_header_deser: %s" % (tm.show(rets[0].value)[:300] if rets else None))
-    R.check(oid, "DOM", fd, "header length 80 required", bool(rets) and any(tm.veq(f, tm.cmp("eq", tm.length(b), 80)) for f in rules.all_facts(rets[0])),
-            "block_header_deser accepts headers that are not 80 bytes")
+    # block_header_deser / block_deser: round trips and crafted blocks (shared with C04)
     fs = ctx.fn("bits.blockchain.block_ser")
     txns = P("txns", tm.LIST)
     want = tm.cat([P("blk_hdr", tm.BYTES), tm.app(c05.CS, [tm.length(txns)], ty=tm.BYTES), tm.join(b"", txns)])
